@@ -1,8 +1,45 @@
 //go:build verif
 
 // Machine-checked contracts for package parser (read by /verif/govc; comments only).
+//
+// C01: ReadPeek (the only place where the parser pulls tokens) terminates for every input and
+// always leaves a typed, located peek token; every function of the package is swept for reachable
+// panics (obligations the verifier cannot discharge on the pinned tree are listed in
+// /verif/unproved/C01.txt and are not claimed).
 
 package parser
+
+import (
+	"github.com/ysugimoto/falco/v2/lexer"
+	"github.com/ysugimoto/falco/v2/token"
+)
+
+var (
+	_ = lexer.New
+	_ = token.EOF
+)
+
+//@ pred okP(p *Parser) = p != nil && is(p.tk, *lexer.Lexer) && okL(p.tk.(*lexer.Lexer)) && okPeeks(p.tk.(*lexer.Lexer)) && okCustoms(p.tk.(*lexer.Lexer))
+
+//@ func (*Parser).ReadPeek [C01]
+//@   requires okP(p)
+//@   ensures [parser-ok] okP(p) && p.tk == old(p.tk)
+//@   ensures [peek-is-a-located-token] p.peekToken != nil && p.peekToken.Token.Type != "" && p.peekToken.Token.Line >= 1
+//@   ensures [progress] p.peekToken.Token.Type != token.EOF ==> lexG(p.tk.(*lexer.Lexer)) < old(lexG(p.tk.(*lexer.Lexer))) || (lexG(p.tk.(*lexer.Lexer)) == old(lexG(p.tk.(*lexer.Lexer))) && len(p.tk.(*lexer.Lexer).peeks) < old(len(p.tk.(*lexer.Lexer).peeks)))
+//@   ensures [no-regress] lexG(p.tk.(*lexer.Lexer)) <= old(lexG(p.tk.(*lexer.Lexer))) && (lexG(p.tk.(*lexer.Lexer)) == old(lexG(p.tk.(*lexer.Lexer))) ==> len(p.tk.(*lexer.Lexer).peeks) <= old(len(p.tk.(*lexer.Lexer).peeks)))
+//@   loop * invariant okP(p) && p.tk == old(p.tk)
+//@   loop 1 invariant lexG(p.tk.(*lexer.Lexer)) <= old(lexG(p.tk.(*lexer.Lexer))) && (lexG(p.tk.(*lexer.Lexer)) == old(lexG(p.tk.(*lexer.Lexer))) ==> len(p.tk.(*lexer.Lexer).peeks) <= old(len(p.tk.(*lexer.Lexer).peeks)))
+//@   loop 2 invariant lexG(p.tk.(*lexer.Lexer)) < atloop(1, lexG(p.tk.(*lexer.Lexer))) || (lexG(p.tk.(*lexer.Lexer)) == atloop(1, lexG(p.tk.(*lexer.Lexer))) && (lexH(p.tk.(*lexer.Lexer)) < atloop(1, lexH(p.tk.(*lexer.Lexer))) || (lexH(p.tk.(*lexer.Lexer)) == atloop(1, lexH(p.tk.(*lexer.Lexer))) && len(p.tk.(*lexer.Lexer).peeks) < atloop(1, len(p.tk.(*lexer.Lexer).peeks)))))
+//@   loop 3 invariant lexG(p.tk.(*lexer.Lexer)) < atloop(1, lexG(p.tk.(*lexer.Lexer))) || (lexG(p.tk.(*lexer.Lexer)) == atloop(1, lexG(p.tk.(*lexer.Lexer))) && (lexH(p.tk.(*lexer.Lexer)) < atloop(1, lexH(p.tk.(*lexer.Lexer))) || (lexH(p.tk.(*lexer.Lexer)) == atloop(1, lexH(p.tk.(*lexer.Lexer))) && len(p.tk.(*lexer.Lexer).peeks) < atloop(1, len(p.tk.(*lexer.Lexer).peeks)))))
+//@   loop 2 invariant lexG(p.tk.(*lexer.Lexer)) <= old(lexG(p.tk.(*lexer.Lexer))) && (lexG(p.tk.(*lexer.Lexer)) == old(lexG(p.tk.(*lexer.Lexer))) ==> len(p.tk.(*lexer.Lexer).peeks) < old(len(p.tk.(*lexer.Lexer).peeks)))
+//@   loop 3 invariant lexG(p.tk.(*lexer.Lexer)) <= old(lexG(p.tk.(*lexer.Lexer))) && (lexG(p.tk.(*lexer.Lexer)) == old(lexG(p.tk.(*lexer.Lexer))) ==> len(p.tk.(*lexer.Lexer).peeks) < old(len(p.tk.(*lexer.Lexer).peeks)))
+//@   loop * decreases lex(lexG(p.tk.(*lexer.Lexer)), lexH(p.tk.(*lexer.Lexer)), len(p.tk.(*lexer.Lexer).peeks))
+
+//@ func (*Parser).NextToken [C01]
+//@   requires okP(p)
+//@   ensures [parser-ok] okP(p) && p.tk == old(p.tk)
+//@   ensures [tokens-shift] p.prevToken == old(p.curToken) && p.curToken == old(p.peekToken)
+//@   ensures [peek-is-a-located-token] p.peekToken != nil && p.peekToken.Token.Type != "" && p.peekToken.Token.Line >= 1
 
 //@ func (*Parser).ParseVCLOrSnippet [C01]
 //@   requires p != nil
@@ -12,3 +49,9 @@ package parser
 //@ func New [C01]
 //@   ensures [non-nil C01] result != nil && fresh(result)
 //@   assigns heap
+
+// the sweep: no reachable panic anywhere in the package
+//@ forall-funcs .* [C01]
+//@   requires? okP(p)
+//@   requires? p.curToken != nil && p.peekToken != nil
+//@   safe
